@@ -175,3 +175,25 @@ def whole_iteration(body, t):
             if not (names & PARTIAL_ADAPTERS):
                 return True
     return False
+
+
+def root_fn(body):
+    """the function a closure body belongs to (or the body itself)"""
+    if body.kind == "closure" and body.parent:
+        return body.facts.body(body.parent) or body
+    return body
+
+
+def is_param(x, body, idx):
+    """term node x denotes parameter number idx (1-based, self = 1) of the function `body` belongs to;
+    inside closures the parameter is seen as a captured variable of the same name"""
+    if x[0] == "param" and body.kind != "closure":
+        return x[1] == idx
+    if x[0] == "upvar" and body.kind == "closure":
+        r = root_fn(body)
+        return idx <= r.argc and r.local_name(idx) == x[2]
+    return False
+
+
+def mentions_param(t, body, idx):
+    return any(is_param(x, body, idx) for x in walk(t))
